@@ -43,8 +43,9 @@ CLAIMED = {
             "DESIGN.md section 6 C03",
             "(5) frame.read: the three derived_observable slices read only data attributes of their inputs (names, idl, deltas, r_values, shape, value, "
             "covobs, reweighted), never a result of an earlier analysis. "
-            "NOT decided: invariance under adding a constant / scaling with |c|, tau_int >= 1/2 and finiteness, reset of all cached dictionaries "
-            "at entry (history independence), replica renaming / reordering."),
+            "(6) history: the accumulators of the total error are reset at entry; natively the complete analysis is run twice with different "
+            "parameters on one object and compared with a fresh copy, and the class-level parameter dictionary must stay untouched. NOT decided: "
+            "invariance under adding a constant / scaling with |c|, tau_int >= 1/2 and finiteness, replica renaming / reordering."),
     "C04": ("symbolic execution of Obs.__init__ over enumerated name lists (well-formed and malformed) with symbolic samples and configuration lists",
             "Proof for the constructor: every malformed request listed in the property (duplicate / non-string names, unsorted or duplicate "
             "configuration numbers, length mismatches, fewer than five samples, several ensembles, wrong idl type) raises exactly the stated "
@@ -123,8 +124,10 @@ CLAIMED = {
             "sum(jacks[1:]) - (n-1) jacks[1+j]; lemmas (z3, real arithmetic): these are the leave-one-out means and import(export) restores every "
             "sample whenever n value equals the sum of the samples.",
             "DESIGN.md section 6 C13",
-            "The invariant n*value == sum of samples of single-chain observables is a precondition of the lemmas, not re-proved here. NOT "
-            "decided: jackknife variance == squared S=0 error, export_bootstrap / import_bootstrap (bincount / lstsq)."),
+            "The invariant n*value == sum of samples of single-chain observables is a precondition of the lemmas, not re-proved here. export_bootstrap: only the "
+            "single-chain guard is a discharged obligation; the resampling identities (sample s = mean of the data resampled with row s, "
+            "default table usable, import inverts export for a full-rank table) are checked by NATIVE SAMPLING ONLY (bounded, listed under "
+            "`bounded` in the evidence). NOT decided: jackknife variance == squared S=0 error, the jackknife helpers of linalg.py."),
     "C14": ("symbolic execution of the Corr methods with exact loop summaries + z3, contracts over all T and all undefined-slice patterns",
             "Proof (N = 1, real content). Each operator method (__add__, __sub__, __mul__, __truediv__, __neg__, __pow__, __abs__, reflected "
             "variants), each elementary function (log, exp, 12 functions through _apply_func_to_corr) and the index transformations reverse, "
